@@ -28,7 +28,8 @@ def gen_images_doc(rng, R, version=None):
         rng.shuffle(arches)
         for a in arches:
             cell = []
-            for _ in range(rng.randint(1, 3)):
+            # a binary architecture may be listed with no image of its own: source images are still filed under it
+            for _ in range(0 if (a != "src" and rng.random() < 0.2) else rng.randint(1, 3)):
                 img = gen_image(rng, R, small=False, idx=n)
                 n += 1
                 img["arch"] = a if a != "src" or rng.random() < 0.8 else "x86_64"
